@@ -58,18 +58,9 @@ def rawSerialize (A : Aead) (key aad : Bytes) : Nat → List (Bytes × Bytes × 
   | _, [] => []
   | ctr, h :: rest => rawRecord A key aad h.1 h.2.1 ctr h.2.2 ++ rawSerialize A key aad (ctr+1) rest
 
-/-- **One step of the decryptor, inverted.**  For every input: either the step fails having written nothing,
-    or the input *is* a raw record (counter bytes, flag bytes, canonical length, sealing of the plaintext that
-    was released) followed by some rest, and the loop continues on exactly that rest. -/
-theorem decLoop_step (A : Aead) (key aad : Bytes) (hS : A.SoundAt key) (cs fuel ctr : Nat) (inp : Bytes) :
-    ((decLoop A key aad cs (fuel+1) ctr inp).1 = [] ∧ (decLoop A key aad cs (fuel+1) ctr inp).2 ≠ .ok) ∨
-    ∃ cf lastB pt rest', cf.length = 8 ∧ lastB.length = 4 ∧ pt.length ≤ cs ∧
-      inp = rawRecord A key aad cf lastB ctr pt ++ rest' ∧
-      A.dec key ctr (aad ++ lastB ++ be32 pt.length) (A.enc key ctr (aad ++ lastB ++ be32 pt.length) pt) = some pt ∧
-      decLoop A key aad cs (fuel+1) ctr inp =
-        if beVal lastB = 1 then (if rest'.length ≠ 0 then ([], .unexpectedData) else ([pt], .ok))
-        else (pt :: (decLoop A key aad cs fuel (ctr+1) rest').1, (decLoop A key aad cs fuel (ctr+1) rest').2) := by
-  have hunf : decLoop A key aad cs (fuel+1) ctr inp =
+/-- the body of `decLoop` with its `let`s inlined -/
+theorem decLoop_unfold (A : Aead) (key aad : Bytes) (cs fuel ctr : Nat) (inp : Bytes) :
+    decLoop A key aad cs (fuel+1) ctr inp =
       if inp.length < 16 then ([], .ioRead) else
       if beVal ((inp.take 16).drop 12) > cs then ([], .chunkLen) else
       if (inp.drop 16).length < beVal ((inp.take 16).drop 12) + 16 then ([], .ioRead) else
@@ -83,7 +74,19 @@ theorem decLoop_step (A : Aead) (key aad : Bytes) (hS : A.SoundAt key) (cs fuel 
           (pt :: (decLoop A key aad cs fuel (ctr+1) ((inp.drop 16).drop (beVal ((inp.take 16).drop 12) + 16))).1,
             (decLoop A key aad cs fuel (ctr+1) ((inp.drop 16).drop (beVal ((inp.take 16).drop 12) + 16))).2) := by
     simp only [decLoop]; rfl
-  rw [hunf]
+
+/-- **One step of the decryptor, inverted.**  For every input: either the step fails having written nothing,
+    or the input *is* a raw record (counter bytes, flag bytes, canonical length, sealing of the plaintext that
+    was released) followed by some rest, and the loop continues on exactly that rest. -/
+theorem decLoop_step (A : Aead) (key aad : Bytes) (hS : A.SoundAt key) (cs fuel ctr : Nat) (inp : Bytes) :
+    ((decLoop A key aad cs (fuel+1) ctr inp).1 = [] ∧ (decLoop A key aad cs (fuel+1) ctr inp).2 ≠ .ok) ∨
+    ∃ cf lastB pt rest', cf.length = 8 ∧ lastB.length = 4 ∧ pt.length ≤ cs ∧
+      inp = rawRecord A key aad cf lastB ctr pt ++ rest' ∧
+      A.dec key ctr (aad ++ lastB ++ be32 pt.length) (A.enc key ctr (aad ++ lastB ++ be32 pt.length) pt) = some pt ∧
+      decLoop A key aad cs (fuel+1) ctr inp =
+        if beVal lastB = 1 then (if rest'.length ≠ 0 then ([], .unexpectedData) else ([pt], .ok))
+        else (pt :: (decLoop A key aad cs fuel (ctr+1) rest').1, (decLoop A key aad cs fuel (ctr+1) rest').2) := by
+  rw [decLoop_unfold]
   by_cases h16 : inp.length < 16
   · left; rw [if_pos h16]; exact ⟨rfl, by simp⟩
   rw [if_neg h16]
@@ -273,5 +276,224 @@ theorem decLoop_reduction (A : Aead) (key aad : Bytes) (hS : A.SoundAt key) (cs 
           refine ⟨ctr, aad ++ lastB ++ be32 pt.length, _, pt, ?_, Nat.le_refl _, hdec, hmem⟩
           rw [hinp]
           exact ⟨cf0 ++ lastB ++ be32 pt.length, rest', by simp [rawRecord]⟩
+
+/-! ### framing of one well-formed record under an arbitrary key -/
+
+/-- What the decryptor does with a well-framed record whose body it may or may not be able to open
+    (the body need not have been sealed under `key`): the *only* thing consulted is `A.dec key ctr ad body`. -/
+theorem decLoop_frame (A : Aead) (key aad : Bytes) (cs fuel ctr : Nat) (cf lastB body tail : Bytes) (n : Nat)
+    (hcf : cf.length = 8) (hlb : lastB.length = 4) (hn : n ≤ cs) (hn32 : n < 2^32) (hb : body.length = n + 16) :
+    decLoop A key aad cs (fuel+1) ctr (cf ++ lastB ++ be32 n ++ body ++ tail) =
+      match A.dec key ctr (aad ++ lastB ++ be32 n) body with
+      | none => ([], .auth)
+      | some pt =>
+        if beVal lastB = 1 then (if tail.length ≠ 0 then ([], .unexpectedData) else ([pt], .ok))
+        else (pt :: (decLoop A key aad cs fuel (ctr+1) tail).1, (decLoop A key aad cs fuel (ctr+1) tail).2) := by
+  have hN4 : (be32 n).length = 4 := rfl
+  have hlen : (cf ++ lastB ++ be32 n ++ body ++ tail).length = 16 + (n + 16) + tail.length := by
+    simp only [List.length_append, hcf, hlb, hN4, hb]
+  have t16 : (cf ++ lastB ++ be32 n ++ body ++ tail).take 16 = cf ++ lastB ++ be32 n := by
+    rw [List.append_assoc (cf ++ lastB ++ be32 n)]
+    exact List.take_left' (by simp only [List.length_append, hcf, hlb, hN4])
+  have d16 : (cf ++ lastB ++ be32 n ++ body ++ tail).drop 16 = body ++ tail := by
+    rw [List.append_assoc (cf ++ lastB ++ be32 n)]
+    exact List.drop_left' (by simp only [List.length_append, hcf, hlb, hN4])
+  have tl : ((cf ++ lastB ++ be32 n).drop 8).take 4 = lastB := by
+    rw [List.append_assoc, List.drop_left' hcf]; exact List.take_left' hlb
+  have tn : (cf ++ lastB ++ be32 n).drop 12 = be32 n :=
+    List.drop_left' (by simp only [List.length_append, hcf, hlb])
+  have tb : (body ++ tail).take (n + 16) = body := List.take_left' hb
+  have db : (body ++ tail).drop (n + 16) = tail := List.drop_left' hb
+  rw [decLoop_unfold, t16, d16, tl, tn, beVal_be32 n hn32, tb, db,
+    if_neg (by rw [hlen]; omega), if_neg (by omega), if_neg (by simp only [List.length_append, hb]; omega)]
+  cases A.dec key ctr (aad ++ lastB ++ be32 n) body with
+  | none => rfl
+  | some pt =>
+    by_cases hl : beVal lastB = 1
+    · simp only [hl, beq_self_eq_true, if_true]
+    · have : (beVal lastB == 1) = false := by simpa using hl
+      simp only [this, hl, if_false, Bool.false_eq_true]
+
+/-- **Nothing is written unless the first record opens.**  Whatever the input, if `A.dec` rejects the first
+    record (the decryptor's own framing of it), or the framing itself fails, the list of writes is empty and the
+    result is an error. -/
+theorem decLoop_first_fail (A : Aead) (key aad : Bytes) (cs fuel ctr : Nat) (inp : Bytes)
+    (h : inp.length < 16 ∨ beVal ((inp.take 16).drop 12) > cs ∨
+         (inp.drop 16).length < beVal ((inp.take 16).drop 12) + 16 ∨
+         A.dec key ctr (aad ++ ((inp.take 16).drop 8).take 4 ++ (inp.take 16).drop 12)
+           ((inp.drop 16).take (beVal ((inp.take 16).drop 12) + 16)) = none) :
+    (decLoop A key aad cs fuel ctr inp).1 = [] ∧ (decLoop A key aad cs fuel ctr inp).2 ≠ .ok := by
+  cases fuel with
+  | zero => simp [decLoop]
+  | succ f =>
+    rw [decLoop_unfold]
+    by_cases h1 : inp.length < 16
+    · rw [if_pos h1]; exact ⟨rfl, by simp⟩
+    rw [if_neg h1]
+    by_cases h2 : beVal ((inp.take 16).drop 12) > cs
+    · rw [if_pos h2]; exact ⟨rfl, by simp⟩
+    rw [if_neg h2]
+    by_cases h3 : (inp.drop 16).length < beVal ((inp.take 16).drop 12) + 16
+    · rw [if_pos h3]; exact ⟨rfl, by simp⟩
+    rw [if_neg h3]
+    rcases h with h | h | h | h
+    · exact absurd h h1
+    · exact absurd h h2
+    · exact absurd h h3
+    · rw [h]; exact ⟨rfl, by simp⟩
+
+/-- Conversely: a non-empty list of writes means the first record opened, to the first write. -/
+theorem decLoop_first_write (A : Aead) (key aad : Bytes) (cs fuel ctr : Nat) (inp : Bytes) (w : Bytes) (ws : List Bytes)
+    (h : (decLoop A key aad cs fuel ctr inp).1 = w :: ws) :
+    A.dec key ctr (aad ++ ((inp.take 16).drop 8).take 4 ++ (inp.take 16).drop 12)
+      ((inp.drop 16).take (beVal ((inp.take 16).drop 12) + 16)) = some w := by
+  cases fuel with
+  | zero => simp [decLoop] at h
+  | succ f =>
+    rw [decLoop_unfold] at h
+    split at h
+    · simp at h
+    split at h
+    · simp at h
+    split at h
+    · simp at h
+    split at h
+    · simp at h
+    · rename_i pt hd
+      rw [hd]
+      split at h
+      · split at h
+        · simp at h
+        · simp only [List.cons.injEq] at h; rw [h.1]
+      · simp only [List.cons.injEq] at h; rw [h.1]
+
+/-! ### file level: what the entry points do with the header -/
+
+theorem passEncrypt_eq (P : Prims) (pw salt : Bytes) (reads : List Bytes) (hwf : wellFormedReads reads) :
+    passEncrypt P pw salt reads =
+      (encPassMagic ++ salt ++ serialize P.aead (P.kdf pw salt) encPassMagic be64 0 (fileChunks reads), .ok) := by
+  simp [passEncrypt, encryptChunks_eq P.aead _ encPassMagic reads hwf]
+
+theorem keyEncrypt_eq (P : Prims) (s spk rs e epk pk msg h : Bytes) (reads : List Bytes) (hwf : wellFormedReads reads)
+    (hw : Noise.writeMessage P encPrologue s spk rs e epk pk = .ok (msg, h)) :
+    keyEncrypt P s spk rs e epk pk reads =
+      (encPrologue ++ msg ++ serialize P.aead (P.hkdfFile pk h) [] be64 0 (fileChunks reads), .ok) := by
+  simp [keyEncrypt, hw, encryptChunks_eq P.aead _ [] reads hwf]
+
+theorem validFileFormat_some_false {h : Bytes} (hv : validFileFormat h = some false) : h = encPassMagic := by
+  unfold validFileFormat at hv
+  split at hv
+  · simp at hv
+  · split at hv
+    · rw [gen_pass_magic_agree]; assumption
+    · simp at hv
+
+theorem validFileFormat_some_true {h : Bytes} (hv : validFileFormat h = some true) : h = encPrologue := by
+  unfold validFileFormat at hv
+  split at hv
+  · rw [gen_asym_magic_agree]; assumption
+  · split at hv <;> simp at hv
+
+theorem passDecrypt_unfold (P : Prims) (pw inp : Bytes) :
+    passDecrypt P pw inp =
+      if inp.length < 4 then ([], .ioRead) else
+      match validFileFormat (inp.take 4) with
+      | none => ([], .format)
+      | some true => ([], .other)
+      | some false =>
+        if (inp.drop 4).length < 32 then ([], .ioRead) else
+        decryptChunks P.aead (P.kdf pw ((inp.drop 4).take 32)) (inp.take 4) chunkSize ((inp.drop 4).drop 32) := by
+  simp only [passDecrypt]; rfl
+
+theorem keyDecrypt_unfold (P : Prims) (r rpk inp : Bytes) :
+    keyDecrypt P r rpk inp =
+      if inp.length < 4 then ([], .ioRead, none) else
+      match validFileFormat (inp.take 4) with
+      | none => ([], .format, none)
+      | some false => ([], .other, none)
+      | some true =>
+        if (inp.drop 4).length < handshakeLen then ([], .ioRead, none) else
+        match Noise.readMessage P (inp.take 4) r rpk ((inp.drop 4).take handshakeLen) with
+        | .error _ => ([], .other, none)
+        | .ok (pk, spk, h) =>
+          if pk.length ≠ 32 then ([], .other, none) else
+          ((decryptChunks P.aead (P.hkdfFile pk h) [] chunkSize ((inp.drop 4).drop handshakeLen)).1,
+           (decryptChunks P.aead (P.hkdfFile pk h) [] chunkSize ((inp.drop 4).drop handshakeLen)).2,
+           if (decryptChunks P.aead (P.hkdfFile pk h) [] chunkSize ((inp.drop 4).drop handshakeLen)).2 = .ok
+             then some spk else none) := by
+  simp only [keyDecrypt]; rfl
+
+/-- a changed magic number is compared and rejected before anything else happens (password mode) -/
+theorem passDecrypt_bad_magic (P : Prims) (pw inp : Bytes) (h : inp.take 4 ≠ encPassMagic) :
+    (passDecrypt P pw inp).1 = [] ∧ (passDecrypt P pw inp).2 ≠ .ok := by
+  rw [passDecrypt_unfold]
+  split
+  · exact ⟨rfl, by simp⟩
+  · split
+    · exact ⟨rfl, by simp⟩
+    · exact ⟨rfl, by simp⟩
+    · rename_i hv; exact absurd (validFileFormat_some_false hv) h
+
+/-- a changed magic number is compared and rejected before anything else happens (key mode) -/
+theorem keyDecrypt_bad_magic (P : Prims) (r rpk inp : Bytes) (h : inp.take 4 ≠ encPrologue) :
+    (keyDecrypt P r rpk inp).1 = [] ∧ (keyDecrypt P r rpk inp).2.1 ≠ .ok ∧ (keyDecrypt P r rpk inp).2.2 = none := by
+  rw [keyDecrypt_unfold]
+  split
+  · exact ⟨rfl, by simp, rfl⟩
+  · split
+    · exact ⟨rfl, by simp, rfl⟩
+    · exact ⟨rfl, by simp, rfl⟩
+    · rename_i hv; exact absurd (validFileFormat_some_true hv) h
+
+theorem passDecrypt_short (P : Prims) (pw inp : Bytes) (h : inp.length < 36) :
+    (passDecrypt P pw inp).1 = [] ∧ (passDecrypt P pw inp).2 ≠ .ok := by
+  rw [passDecrypt_unfold]
+  split
+  · exact ⟨rfl, by simp⟩
+  · split
+    · exact ⟨rfl, by simp⟩
+    · exact ⟨rfl, by simp⟩
+    · have : (inp.drop 4).length < 32 := by simp only [List.length_drop]; omega
+      rw [if_pos this]; exact ⟨rfl, by simp⟩
+
+/-- with the right magic and at least 36 bytes, password-mode decryption *is* the stream decryptor under the
+    key derived from the password and bytes 4..36 -/
+theorem passDecrypt_body (P : Prims) (pw inp : Bytes) (hm : inp.take 4 = encPassMagic) (hl : 36 ≤ inp.length) :
+    passDecrypt P pw inp =
+      decryptChunks P.aead (P.kdf pw ((inp.drop 4).take 32)) encPassMagic chunkSize (inp.drop 36) := by
+  have h4 : ¬ inp.length < 4 := by omega
+  have h32 : ¬ (inp.drop 4).length < 32 := by simp only [List.length_drop]; omega
+  rw [passDecrypt_unfold, if_neg h4, hm, validFileFormat_pass]
+  simp only [h32, if_false, List.drop_drop]
+
+theorem keyDecrypt_short (P : Prims) (r rpk inp : Bytes) (h : inp.length < 132) :
+    (keyDecrypt P r rpk inp).1 = [] ∧ (keyDecrypt P r rpk inp).2.1 ≠ .ok := by
+  rw [keyDecrypt_unfold]
+  split
+  · exact ⟨rfl, by simp⟩
+  · split
+    · exact ⟨rfl, by simp⟩
+    · exact ⟨rfl, by simp⟩
+    · have : (inp.drop 4).length < handshakeLen := by
+        rw [gen_handshakeLen]; simp only [List.length_drop]; omega
+      rw [if_pos this]; exact ⟨rfl, by simp⟩
+
+/-- with the right magic and at least 132 bytes, key-mode decryption is: read the handshake message, then run the
+    stream decryptor under the derived file key -/
+theorem keyDecrypt_body (P : Prims) (r rpk inp : Bytes) (hm : inp.take 4 = encPrologue) (hl : 132 ≤ inp.length) :
+    keyDecrypt P r rpk inp =
+      match Noise.readMessage P encPrologue r rpk ((inp.drop 4).take 128) with
+      | .error _ => ([], .other, none)
+      | .ok (pk, spk, h) =>
+        if pk.length ≠ 32 then ([], .other, none) else
+        ((decryptChunks P.aead (P.hkdfFile pk h) [] chunkSize (inp.drop 132)).1,
+         (decryptChunks P.aead (P.hkdfFile pk h) [] chunkSize (inp.drop 132)).2,
+         if (decryptChunks P.aead (P.hkdfFile pk h) [] chunkSize (inp.drop 132)).2 = .ok then some spk else none) := by
+  have h4 : ¬ inp.length < 4 := by omega
+  have h128 : ¬ (inp.drop 4).length < 128 := by
+    simp only [List.length_drop]; omega
+  rw [keyDecrypt_unfold, if_neg h4, hm, validFileFormat_asym]
+  simp only [gen_handshakeLen, List.drop_drop]
+  rw [if_neg h128]
 
 end Kestrel
